@@ -1,5 +1,6 @@
-(* C12 - executable model of include/nstd/Callback.hpp + src/Callback.cpp AFTER the repair in
-   fixes/C12 (the two search loops skip entries already marked disconnected).  No proofs here.
+(* C12 - executable model of include/nstd/Callback.hpp + src/Callback.cpp as they are in /repo now
+   (fixes/C12/01 is committed there: the two search loops skip entries already marked disconnected).
+   No proofs here.
 
    Representation
    * Emitter* / Listener* are object ids; every object carries a liveness flag and every
